@@ -247,6 +247,20 @@ def ask(hs, req):
 
 
 def execute(case):
+    try:
+        return _execute(case)
+    except kernel.Hang:
+        # a worker interpreter is stuck: it must not serve the next case
+        for hs, p in list(_children.items()):
+            try:
+                p.kill()
+            except OSError:
+                pass
+            _children.pop(hs, None)
+        raise
+
+
+def _execute(case):
     import yaml
     out = {'violations': [], 'evals': 0, 'probes': {}, 'faults': {}, 'sigs': [], 'extra': {}}
     if case['dumper'].startswith('C') and not getattr(yaml, '__with_libyaml__', False):
